@@ -696,6 +696,8 @@ def _selftests():
 
 
 def run(ctx):
+    from harness import growth
+    growth.safe(ctx, growth.lrefine_steps)
     ctx.rule = ("curves with 5<=n<=60 (adversarial, sampled grid, random families) x {curvature, Menger, DFDT single pass, "
                 "DFDT loop, L-method get_knee (Fit x Cost), L-method knee (Fit x Refinement x limit in {4,5,10})}; "
                 "non-trivial: the criterion has at least two distinct rank classes over the admissible range; "
